@@ -93,6 +93,21 @@ int main(int argc, char** argv) {
     if (pr(OffsetDateTime::forError()) != "<Invalid OffsetDateTime>") fail("placeholder OffsetDateTime", pr(OffsetDateTime::forError()), 0, 0);
     if (pr(ZonedDateTime::forError()) != "<Invalid ZonedDateTime>") fail("placeholder ZonedDateTime", pr(ZonedDateTime::forError()), 0, 0);
     if (pr(TimeZone::forError()) != "<Error>") fail("placeholder TimeZone", pr(TimeZone::forError()), 0, 0);
+    // an offset / zoned date-time that is an error because of any of its parts prints the placeholder too
+    {
+      OffsetDateTime e1 = OffsetDateTime::forComponents(2018, 8, 31, 13, 48, 1, TimeOffset::forError());
+      OffsetDateTime e2 = OffsetDateTime::forDateString("2018-08-31T13:48:01&07:00");
+      OffsetDateTime e3 = OffsetDateTime::forLocalDateTimeAndOffset(LocalDateTime::forError(), TimeOffset::forMinutes(60));
+      OffsetDateTime e4 = OffsetDateTime::forEpochSeconds(1000, TimeOffset::forError());
+      const OffsetDateTime* es[] = {&e1, &e2, &e3, &e4};
+      for (int k = 0; k < 4; k++) if (es[k]->isError() && pr(*es[k]) != "<Invalid OffsetDateTime>") fail("placeholder OffsetDateTime (error part)", pr(*es[k]), k, 0);
+      ZonedDateTime z1 = ZonedDateTime::forEpochSeconds(1000, TimeZone::forError());
+      ZonedDateTime z2 = ZonedDateTime::forComponents(2018, 13, 31, 13, 48, 1, TimeZone::forUtc());
+      if (z1.isError() && pr(z1) != "<Invalid ZonedDateTime>") fail("placeholder ZonedDateTime (error zone)", pr(z1), 0, 0);
+      if (z2.isError() && pr(z2) != "<Invalid ZonedDateTime>") fail("placeholder ZonedDateTime (error fields)", pr(z2), 0, 0);
+      LocalDateTime l1 = LocalDateTime::forComponents(2018, 8, 31, 25, 0, 0);
+      if (l1.isError() && pr(l1) != "<Invalid LocalDateTime>") fail("placeholder LocalDateTime (error time)", pr(l1), 0, 0);
+    }
     // every string shorter than the required minimum parses to an error value
     static const char* texts[] = {"2018-08-31T13:48:01-07:00[America/Los_Angeles]", "1999-12-31T23:59:59+16:00", "2127-01-01T00:00:55-00:01"};
     for (const char* tx : texts) {
